@@ -2,6 +2,7 @@ package c07
 
 import (
 	"bytes"
+	"context"
 	"encoding/json"
 	"fmt"
 	"sync"
@@ -43,10 +44,13 @@ func genConc(t *rapid.T) ConcCase {
 
 func checkConc(t *testing.T, c ConcCase) (v harness.Verdict) {
 	be := reflog.New(6962, 1)
-	clock := ctfex.NewClock(time.UnixMilli(1700000000000))
-	o := ctfex.Opts{LogKey: keys.Pick("p256", 1), Roots: world.Roots(), Backend: be, Clock: clock}
+	// The system clock is used here: the front end derives the deadline of every backend / storage call from
+	// its clock, and a storage fake that honours contexts would see an expired one under a clock set in the past.
+	o := ctfex.Opts{LogKey: keys.Pick("p256", 1), Roots: world.Roots(), Backend: be}
+	var store *memstore.Store
 	if c.Indirect {
-		o.ChainStorage = memstore.New()
+		store = memstore.New()
+		o.ChainStorage = store
 	}
 	inst, err := ctfex.New(o)
 	if err != nil {
@@ -59,7 +63,6 @@ func checkConc(t *testing.T, c ConcCase) (v harness.Verdict) {
 		if s.Precert {
 			path = "/ct/v1/add-pre-chain"
 		}
-		clock.Add(time.Millisecond)
 		if rsp := inst.Post(path, addChainBody(b.Submit)); rsp.Status != 200 {
 			v.Failf("valid-chain-refused", "item %d: %d %s", i, rsp.Status, rsp.Body)
 			return v
@@ -78,6 +81,30 @@ func checkConc(t *testing.T, c ConcCase) (v harness.Verdict) {
 	inst.SlowWriter = true
 	var mu sync.Mutex
 	var wg sync.WaitGroup
+	if store != nil {
+		// a storage read takes a moment and, like a database driver, gives up when ITS caller's context ends
+		store.Latency = 300 * time.Microsecond
+		// bystanders: requests whose callers hang up almost at once; whatever they are answered, the
+		// healthy readers below must not be affected by them
+		stopBy := make(chan struct{})
+		defer close(stopBy)
+		for b := 0; b < 2; b++ {
+			go func(b int) {
+				for k := 0; ; k++ {
+					select {
+					case <-stopBy:
+						return
+					default:
+					}
+					ctx, cancel := context.WithTimeout(context.Background(), time.Duration(50+20*b)*time.Microsecond)
+					rd := c.Reads[(k+b)%len(c.Reads)]
+					start := rd[0] % size
+					inst.Do(ctx, "GET", "/ct/v1/get-entries", fmt.Sprintf("start=%d&end=%d", start, start+rd[1]), nil)
+					cancel()
+				}
+			}(b)
+		}
+	}
 	for g := 0; g < c.Readers; g++ {
 		wg.Add(1)
 		go func(g int) {
